@@ -298,6 +298,7 @@ pub fn fraccion_renovable_acs_nrb(ep: &EnergyPerformance) -> Result<f32, EpbdErr
         .iter()
         .filter(|c| {
             c.is_used()
+                && c.has_service(Service::ACS)
                 && c.has_carrier(EAMBIENTE)
                 && c.comment().contains("CTEEPBD_EXCLUYE_SCOP_ACS")
         })
